@@ -8,7 +8,7 @@ git -C /repo worktree add --detach $wt HEAD >/dev/null 2>&1 || exit 9
 mkdir -p $vb; cp -r /verif/.build/mir $vb/mir 2>/dev/null
 # run from a snapshot of the committed framework so that edits in /verif do not disturb the run
 snap=/tmp/vsnap-$name; rm -rf $snap; git -C /verif worktree add --detach $snap HEAD >/dev/null 2>&1
-VERIF_REPO=$wt VERIF_BUILD=$vb $snap/check $prop --tier $tier > /tmp/mutrun-$name.log 2>&1
+VERIF_REPO=$wt VERIF_BUILD=$vb $snap/check $prop --tier $tier "${@:4}" > /tmp/mutrun-$name.log 2>&1
 echo "exit=$?" >> /tmp/mutrun-$name.log
 tail -4 /tmp/mutrun-$name.log
 git -C /repo worktree remove --force $wt >/dev/null 2>&1; git -C /verif worktree remove --force $snap >/dev/null 2>&1; rm -rf $vb/mir $vb/replay-target
